@@ -4,6 +4,7 @@
 set -u
 P="$1"; X="$2"; SRC="${3:-/tmp/wt_$P/out}"; ID="${4:-$X}"; WT=/tmp/wt_mut
 export CARGO_TARGET_DIR=$WT/target CARGO_NET_OFFLINE=true
+[ -d "$WT" ] || git -C /repo worktree add -q --detach "$WT" HEAD || exit 2   # remove afterwards: git -C /repo worktree remove --force /tmp/wt_mut
 cd $WT || exit 2
 git checkout -q -- . ; rm -rf tests; mkdir -p tests; cp "$SRC/$X.demo.rs" tests/demo.rs
 clean=$(cargo test --offline --test demo 2>&1 | grep -E "^test result" | tail -1)
